@@ -80,6 +80,18 @@ class G:
                     ins["params"][scalar_param] = {"$": "fn", "f": {"kind": "lin", "i": i, "a": a, "b": b}}
                 else:
                     ins["params"][scalar_param] = {"$": "fn", "f": {"kind": "lin", "i": i, "a": _r(a * 0.1), "b": b}}
+        # sometimes a second outcome-dependent parameter on the same instruction (resolution is then a
+        # multi-step operation that can fail half-way)
+        if scalar_param and isinstance(ins["params"].get(scalar_param), dict) and rng.chance(0.4):
+            others = [k for k, v in ins["params"].items() if k != scalar_param and isinstance(v, (int, float)) and not isinstance(v, bool)]
+            if others:
+                k2 = rng.pick(others)
+                j = rng.randrange(self.n_outcomes)
+                a2 = _r(rng.uniform(0.05, 0.3))
+                if self.outcome_kinds[j] == "int":
+                    ins["params"][k2] = {"$": "expr", "s": "%s * x[%d] + %s" % (a2, j, _r(rng.uniform(0.0, 0.2)))} if rng.chance(0.5) else {"$": "fn", "f": {"kind": "lin", "i": j, "a": a2, "b": 0.05}}
+                else:
+                    ins["params"][k2] = {"$": "fn", "f": {"kind": "lin", "i": j, "a": _r(a2 * 0.1), "b": 0.05}}
         if rng.chance(0.4):
             if isint:
                 c = rng.randrange(0, max(1, self.outcome_max[i]) + 1)
